@@ -1,6 +1,6 @@
 (* C16 — property theorems (statements only; proofs live in Proofs*.v). *)
 From Coq Require Import ZArith QArith Qabs List Bool.
-Require Import QV.C16.Model QV.C16.Spec QV.C16.Proofs QV.C16.Proofs2 QV.C16.Proofs3 QV.C16.Proofs4 QV.C16.Proofs5 QV.C16.Proofs_term QV.C16.Proofs6 QV.C16.Proofs_fuel QV.C16.Proofs7 QV.C16.Proofs8 QV.C16.Proofs9.
+Require Import QV.C16.Model QV.C16.Spec QV.C16.Proofs QV.C16.Proofs2 QV.C16.Proofs3 QV.C16.Proofs4 QV.C16.Proofs5 QV.C16.Proofs_term QV.C16.Proofs6 QV.C16.Proofs_fuel QV.C16.Proofs7 QV.C16.Proofs8 QV.C16.Proofs9 QV.C16.Gen_tabor QV.C16.GenEq.
 Import ListNotations.
 Open Scope Z_scope.
 
@@ -298,3 +298,34 @@ Theorem C16_recompile_nonvacuous : exists ch1 ch2 o,
   compile (ex_cfg 2 8) ex_tbl (set_ch (root_of ex_prog) ch2) = Ok o.
 Proof. exact ex_recompile. Qed.
 Print Assumptions C16_recompile_nonvacuous.
+
+(* (9) tie to the CURRENT source of qupulse/_program/tabor.py (Gen_tabor.v is regenerated by
+   translate/py2gallina_c16.py on every check: one Gallina boolean per if / elif / while / assert test, over declared
+   observations of the Loop objects).  Each model function is the same function as a skeleton — the order of the
+   branches and their actions — that takes ALL its decisions from the generated tests. *)
+Theorem C16_source_merge_test : forall a b mx,
+  merge_ok a b mx
+  = gen_check_merge_with_next_t1 (l_rep a) (l_rep b) (negb (l_vol a)) (negb (l_vol b)) (l_len a) (l_len b) mx.
+Proof. exact gen_merge_ok_eq. Qed.
+Print Assumptions C16_source_merge_test.
+
+Theorem C16_source_partial_unroll_tests : forall st mn,
+  partial_unroll st mn =
+  if pu_obs gen_check_partial_unroll_t1 st mn then None
+  else if pu_obs gen_check_partial_unroll_t2 st mn then
+    let st1 := if pu_obs gen_check_partial_unroll_t3 st mn then unroll_children st else st in
+    Some (split_until (Z.to_nat (mn - l_len st1)) mn st1)
+  else None.
+Proof. exact gen_partial_unroll_eq. Qed.
+Print Assumptions C16_source_partial_unroll_tests.
+
+Theorem C16_source_prepare_tests : forall mn mx before after,
+  prep_step mn mx before after = prep_step_gen mn mx before after.
+Proof. exact gen_prep_step_eq. Qed.
+Print Assumptions C16_source_prepare_tests.
+
+Theorem C16_source_segment_length_test : forall ns : list Z,
+  existsb (fun n => (n mod 16 >? 0) || (n <? 192)) ns
+  = existsb (fun n => gen_calc_sampled_segments_t1 n 0 0 0 0 0) ns.
+Proof. exact gen_segment_length_eq. Qed.
+Print Assumptions C16_source_segment_length_test.
